@@ -40,6 +40,8 @@ SPECS = {
     "b0_dsdpi_hel": ("B0", ["D*(2010)-", "D+", "pi0"], ["D*(2007)0", "D(2)*(2460)0"], None, "helicity"),
     "psi2s_ggjpsi_hel": (("psi(2S)", [-1, 1]), ["gamma", "gamma", "J/psi(1S)"], ["chi(c1)(1P)"], ["EM"], "helicity"),
     "jpsi_kstkst_hel": (("J/psi(1S)", [-1, 0, 1]), ["K+", "pi-", "K-", "pi+"], ["K*(892)0", "K*(892)~0"], ["strong"], "helicity"),
+    # two topologies whose isobars both contain final state 0 (helicity states); spin-1/2 recoilers (C04)
+    "jpsi_ppbarpi0_hel": (("J/psi(1S)", [-1, 0, 1]), ["pi0", "p", "p~"], ["N(1440)+", "N(1440)~-"], ["strong"], "helicity"),
     "chic0_kstkst_hel": ("chi(c0)(1P)", ["K+", "pi-", "K-", "pi+"], ["K*(892)0", "K*(892)~0"], ["strong"], "helicity"),
     "chic0_omegaomega_hel": ("chi(c0)(1P)", ["pi0", "gamma", "pi0", "gamma"], ["omega(782)"], ["EM", "strong"], "helicity"),
     "jpsi_gkk_hel": (("J/psi(1S)", [-1, 1]), ["gamma", "K+", "K-"], ["f(2)(1270)", "f(0)(1500)"], ["strong", "EM"], "helicity"),
